@@ -6,10 +6,14 @@ those a syncing node derives - over a small token ledger as `handleTransaction`.
 ```
 X <op>;<op>;…            `b` seals a block with the transactions listed since the previous `b`
 ont|ong:<from>.<sh>:<to>:<amt>:<gp>:<payer>     native transfer from account <from> (who signs) to account <to>
-cwt|cwn:<signer>.<sh>:<target>:<gp>:<payer>     CheckWitness(account <target>), then THROWIFNOT | Runtime.Notify(result)
+cwt|cwn:<signer>.<sh>:<target>:<gp>:<payer>     CheckWitness(account <target>; `z` = the all-zero address), then THROWIFNOT | Runtime.Notify(result)
 dep:<signer>.<sh>:<k>                           deploy contract k = `CheckWitness(account k) THROWIFNOT PUSH1` (gas price 0)
 app:<signer>.<sh>:<k>:<gp>:<payer>              APPCALL contract k
 eip:<e>:<to>:<amt>:<gpGwei>                     EIP-155 transfer of <amt> gwei from Ethereum account e to account <to>
+sha:<signer>.<sh>:<count>:<gasLimit>:<payer>    `PUSH 01` then <count> × SHA256 at gas price 0: succeeds iff 1 + count·fee(SHA256) ≤ gasLimit,
+                                                fee(SHA256) = the block's gas table (`refreshGlobalParam`: the state's value)
+fee:<v>                                         the operator sets the governed SHA256 price to v and takes the snapshot (two
+                                                transactions); effective from the NEXT block
 <payer> = `-` (the signer pays) | <acct>.<sh> (a second signature set; that account pays)
 <acct>.<sh> may be followed by `.<sn>`: the number of signatures the set carries, m ≤ sn ≤ n (default m; only the first m are
           ever verified, so it changes nothing on either node)
@@ -26,7 +30,7 @@ failing fee transfer fails the transaction without committing anything (`chargeC
 namespace OntVerif.Driver.C02
 open OntVerif.Util OntVerif.Model.KV OntVerif.Model.ExecBlock
 
-inductive Kind | ont | ong | cwt | cwn | dep | app | eip
+inductive Kind | ont | ong | cwt | cwn | dep | app | eip | sha | setp | snap
   deriving DecidableEq, Repr
 
 structure DTx where
@@ -63,11 +67,15 @@ def sets (t : DTx) : List (Nat × String) :=
 
 /-- `GetSignatureAddresses` on the validating node (`SignedAddr`) -/
 def signersA (t : DTx) : List Bytes :=
-  if t.kind = .eip then [acctAddr (ethAcct t.signer)] else (sets t).map fun s => acctAddr s.1
+  if t.kind = .eip then [acctAddr (ethAcct t.signer)]
+  else if t.kind = .setp ∨ t.kind = .snap then [acctAddr 200]
+  else (sets t).map fun s => acctAddr s.1
 
 /-- … and on the node that received the transaction in a block -/
 def signersB (v : Variant) (t : DTx) : List Bytes :=
-  if t.kind = .eip then [acctAddr (ethAcct t.signer)] else (sets t).map fun s => fallbackAddr v s.1 s.2
+  if t.kind = .eip then [acctAddr (ethAcct t.signer)]
+  else if t.kind = .setp ∨ t.kind = .snap then [acctAddr 200]
+  else (sets t).map fun s => fallbackAddr v s.1 s.2
 
 def payerId (t : DTx) : Nat := match t.payer with | some p => p.1 | none => t.signer
 
@@ -79,6 +87,9 @@ def decN (b : Bytes) : Nat := OntVerif.Model.KV.fromLE b
 def kOnt (i : Nat) : Bytes := [0x4F, UInt8.ofNat i]
 def kOng (i : Nat) : Bytes := [0x47, UInt8.ofNat i]
 def kCode (k : Nat) : Bytes := [0x43, UInt8.ofNat k]
+def kParam : Bytes := [0x50]          -- the current value of the governed parameter SHA256
+def kParamPending : Bytes := [0x51]   -- the value set by `setGlobalParam`, not yet snapshotted
+def shaDefault : Nat := 10            -- `SHA256_GAS`
 
 def bal (c : Cache) (key : Bytes) : Nat := decN (c.get stStorage key)
 
@@ -104,8 +115,15 @@ def costInvalid (wit : Bytes → Bool) (c : Cache) (t : DTx) (gas : Nat) : TxOut
     ⟨{ c with backend := f.commit.backend }, { failNotify t with gasConsumed := gas, events := [evTransfer 0x46 (payerId t) govId gas] }, [], []⟩
 
 /-- what the VM does for the script of `t`: `none` = the engine returns an error -/
-def vm (wit : Bytes → Bool) (c : Cache) (t : DTx) : Option (Cache × List Bytes) :=
+def vm (gas : GasLookup) (wit : Bytes → Bool) (c : Cache) (t : DTx) : Option (Cache × List Bytes) :=
   match t.kind with
+  | .sha => if 1 + t.amt * (gas "SHA256").getD shaDefault ≤ t.arg then some (c, []) else none
+  | .setp => if wit (acctAddr 200) then some (c.put stStorage kParamPending (encN t.amt), [[0x50]]) else none
+  | .snap =>
+    if wit (acctAddr 200) then
+      let pend := c.get stStorage kParamPending
+      some (if pend.isEmpty then c else c.put stStorage kParam pend, [[0x53]])
+    else none
   | .ont => (transfer wit c kOnt t.signer t.arg t.amt).map fun c' => (c', if t.amt = 0 then [] else [evTransfer 0x54 t.signer t.arg t.amt])
   | .ong => (transfer wit c kOng t.signer t.arg t.amt).map fun c' => (c', if t.amt = 0 then [] else [evTransfer 0x55 t.signer t.arg t.amt])
   | .cwt => if wit (acctAddr t.arg) then some (c, []) else none
@@ -114,13 +132,13 @@ def vm (wit : Bytes → Bool) (c : Cache) (t : DTx) : Option (Cache × List Byte
   | _ => none
 
 /-- `HandleInvokeTransaction` for the scripts above -/
-def handleInvoke (wit : Bytes → Bool) (c : Cache) (t : DTx) : TxOut :=
+def handleInvoke (gas : GasLookup) (wit : Bytes → Bool) (c : Cache) (t : DTx) : TxOut :=
   let charge := t.gp ≠ 0
   let minGas := minTxGas * t.gp
   let oldBal := bal c (kOng (payerId t))
   if charge ∧ oldBal < minGas then costInvalid wit c t oldBal
   else
-    match vm wit c t with
+    match vm gas wit c t with
     | none => if charge then costInvalid wit c t minGas else ⟨c, failNotify t, [], []⟩
     | some (c', evs) =>
       if charge then
@@ -148,12 +166,13 @@ def handleEip (c : Cache) (t : DTx) : TxOut :=
 
 def env : Env DTx Bytes where
   gasPrice := fun t => if t.kind = .eip then 0 else t.gp
-  handle := fun _ _ wit t _ _ c =>
+  handle := fun gas _ wit t _ _ c =>
     some (match t.kind with
       | .dep => handleDeploy c t
       | .eip => handleEip c t
-      | _ => handleInvoke wit c t)
-  param := fun _ _ => none
+      | _ => handleInvoke gas wit c t)
+  param := fun st k =>
+    if k == "SHA256" then (Store.get st (stStorage :: kParam)).map decN else none
   evmWitness := fun _ => []
   H := id
   bloomOf := fun _ => []
@@ -169,7 +188,7 @@ def initStore : Store :=
   let st2 := accts.foldl (fun st i => (Store.put st (stStorage :: kOng i) (encN 1000000000000))) st1
   [100, 101].foldl (fun st i => (Store.put st (stStorage :: kOng i) (encN 1000000000000))) st2
 
-def initNode : Node Bytes := ⟨initStore, [], [], 0⟩
+def initNode : Node Bytes := ⟨initStore, [], [("SHA256", shaDefault)], 0⟩
 
 /-! ### parsing -/
 
@@ -213,16 +232,25 @@ def parseTx (seq : Nat) (op : String) : Option DTx :=
       match sg.toNat?, a.toNat?, gp.toNat?, py.toNat? with
       | some e, some to, some amt, some g => if e < 2 ∧ to < nAcct then some ⟨.eip, e, "c", to, amt, g, none, seq⟩ else none
       | _, _, _, _ => none
-    else if k == "cwt" ∨ k == "cwn" ∨ k == "app" then
+    else if k == "sha" then
       match parseSigner sg, a.toNat?, gp.toNat? with
+      | some (i, sh), some cnt, some gl =>
+        match parsePayer i py with
+        | some p => if 1 ≤ cnt ∧ cnt ≤ 200 then some ⟨.sha, i, sh, gl, cnt, 0, p, seq⟩ else none
+        | none => none
+      | _, _, _ => none
+    else if k == "cwt" ∨ k == "cwn" ∨ k == "app" then
+      -- target `z`: the all-zero address (nobody's account: CheckWitness is false on every node)
+      match parseSigner sg, (if a == "z" ∧ k != "app" then some 255 else a.toNat?), gp.toNat? with
       | some (i, sh), some a, some gp =>
         match parsePayer i py with
         | some p =>
           let kind := if k == "cwt" then Kind.cwt else if k == "cwn" then Kind.cwn else Kind.app
-          if (kind = .app ∧ a < 3) ∨ (kind ≠ .app ∧ a < nAcct) then some ⟨kind, i, sh, a, 0, gp, p, seq⟩ else none
+          if (kind = .app ∧ a < 3) ∨ (kind ≠ .app ∧ (a < nAcct ∨ a = 255)) then some ⟨kind, i, sh, a, 0, gp, p, seq⟩ else none
         | none => none
       | _, _, _ => none
     else none
+  | ["fee", _] => none     -- expanded by `run` into two transactions
   | ["dep", sg, k] =>
     match parseSigner sg, k.toNat? with
     | some (i, sh), some k => if k < 3 then some ⟨.dep, i, sh, k, 0, 0, none, seq⟩ else none
@@ -273,9 +301,19 @@ def run (v : Variant) : St → List String → Option String
       match sealBlock v s with
       | some s' => run v s' rest
       | none => none
-    else match parseTx s.seq op with
-      | some t => run v { s with cur := t :: s.cur, seq := s.seq + 1 } rest
-      | none => none
+    else match op.splitOn ":" with
+      | ["fee", val] =>
+        match val.toNat? with
+        | some x =>
+          if x < 4294967296 then
+            run v { s with cur := ⟨.snap, 0, "c", 0, 0, 0, none, s.seq + 1⟩ :: ⟨.setp, 0, "c", 0, x, 0, none, s.seq⟩ :: s.cur,
+                           seq := s.seq + 2 } rest
+          else none
+        | none => none
+      | _ =>
+        match parseTx s.seq op with
+        | some t => run v { s with cur := t :: s.cur, seq := s.seq + 1 } rest
+        | none => none
 
 def handle (line : String) : String :=
   match fields line with
